@@ -20,6 +20,9 @@ RULE = ("Generated: smooth&decomposable DAGs (<= 4 variables, every input type, 
         "direction per tensor and along the continuous input columns vs central finite differences of the SAME "
         "functional of the numpy reference (two step sizes; tolerance from their difference); (ii) the four "
         "settings give the same gradients tensor by tensor; (iii) gradients are finite where the reference value is "
+        "non-zero; (iv) for real non-negative cases the log-space semirings give the same gradients of the linear "
+        "functional as the sum-product compilation (value profile 'tiny': positive values below machine epsilon). "
+        "[iii continued:] "
         "non-zero. Non-trivial = compared and (a tensor folded with others, or a log-space semiring, or a rewritten "
         "layer); distinct = hash of case.")
 ASSUMPTIONS = ["finite differences with steps h and h/2 (h = 1e-4): |<grad,d> - FD| <= 8*|FD_h - FD_h/2| + 1e-6*|FD| + "
@@ -41,7 +44,8 @@ def _case(draw, tier):
         spec = draw(gen.sd_circuit(input_types=gen.ALL_INPUTS, cx=draw(st.booleans()), **kw))
     spec = gen.unlearn(draw, spec, p=8)  # some frozen tensors (folded together with learnable ones of equal shape)
     return {"spec": spec, "semiring": sem, "vseed": draw(st.integers(0, 2**20)),
-            "profile": draw(st.sampled_from(["normal", "normal", "ints"])), "xseed": draw(st.integers(0, 2**20)),
+            "profile": draw(st.sampled_from(["normal", "normal", "ints", "tiny"] + (["tiny"] if sem == "lse-sum" else []))),
+            "xseed": draw(st.integers(0, 2**20)),
             "B": draw(st.sampled_from([1, 2, 3])), "wseed": draw(st.integers(0, 2**20)),
             "functional": draw(st.sampled_from(["lin", "lin", "log"]))}
 
@@ -80,7 +84,8 @@ def run_case(case):
         vals = {t: np.asarray(v, dtype=np.float64).reshape(t.shape) for t, v in zip(tensors, case["values"])}
     for t in list(vals):  # keep away from the kinks of clamp (finite differences straddle them)
         v = vals[t]
-        if not np.iscomplexobj(v) and "clamp" in str((getattr(t, "_vspec", None) or {}).get("k", "clamp")):
+        if (not np.iscomplexobj(v) and "clamp" in str((getattr(t, "_vspec", None) or {}).get("k", "clamp"))
+                and case["profile"] != "tiny"):
             vals[t] = np.where(np.abs(v) < 0.02, 0.05, v)
     dom = gen.domains_of(spec)
     X = gen.draw_inputs_rng(spec, case["xseed"], case["B"])
@@ -164,6 +169,8 @@ def run_case(case):
     checked = 0
     fd_skipped = []
     for ti, t in enumerate([t for t in tensors if t.learnable] if not hidden_zero else []):
+        if case["profile"] == "tiny" and np.min(np.abs(vals[t])) < 1e-3:
+            continue  # a step of 1e-4 is not small for this tensor; it is covered by the cross-semiring comparison
         d = rng.normal(size=t.shape)
         if np.iscomplexobj(vals[t]):
             d = d + 1j * rng.normal(size=t.shape)
@@ -209,6 +216,37 @@ def run_case(case):
                     raise Violation("gradient-vs-finite-differences", f"{tag}:input-gradient:{sem}:{kind}",
                                     f"autograd {dd!r} finite-diff {fd2!r} (tol {tolv:.2e})")
             checked += 1
+
+    # (iv) semiring independence: the same linear-space functional differentiated through the plain sum-product
+    # compilation must give the same gradients (catches wrong backward passes of the log-space machinery at
+    # values that finite differences cannot resolve, e.g. positive values below machine epsilon)
+    real_params = not any(np.iscomplexobj(v) for v in vals.values())
+    if sem != "sum-product" and kind == "lin" and real_params and not hidden_zero and np.all(np.real(r) > 0):
+        comp_sp = TorchCompiler(semiring="sum-product", fold=False, optimize=False)
+        with sut("compile[sum-product]"):
+            cc_sp = comp_sp.compile(sc)
+        tie.write_values(comp_sp, vals)
+        xs = torch.from_numpy(np.ascontiguousarray(X)).clone()
+        with sut("forward[sum-product]"):
+            ysp = cc_sp(xs) if spec_scope(spec) else cc_sp().unsqueeze(0).expand(X.shape[0], -1, -1)
+        Lsp = (torch.from_numpy(w) * ysp).sum()
+        if Lsp.requires_grad:
+            Lsp.backward()
+            gsp = {}
+            for t in tensors:
+                if t.learnable:
+                    node, idx = comp_sp.state.retrieve_compiled_parameter(t)
+                    gr = node._ptensor.grad
+                    gsp[t] = np.zeros(t.shape) if gr is None else gr[idx].detach().numpy().copy()
+            gm = max([float(np.max(np.abs(a))) for a in gsp.values() if a.size] + [0.0])
+            if np.isfinite(gm):
+                for ti, t in enumerate([t for t in tensors if t.learnable]):
+                    diff = np.abs(np.real(grads["plain"][t]) - gsp[t])
+                    if not np.all(diff <= 1e-6 * gm + 1e-12 * S + 1e-300):
+                        raise Violation("gradient-semiring-independence", f"plain:differs-from-sum-product:{sem}",
+                                        f"tensor #{ti} shape {t.shape}: max diff {float(np.nanmax(diff)):.3e} "
+                                        f"(max |g| {gm:.3e})")
+                checked += 1
 
     # (ii) flag independence, tensor by tensor
     g0 = grads["plain"]
